@@ -192,6 +192,10 @@ func h1Output(env *Env, c *H1Cfg, hr *h1Run, stats simrt.Stats, timedOut, allEnd
 		env.PrecondNotMet("C19")
 		return
 	}
+	if c.OutputFailAtNs > 0 {
+		env.PrecondNotMet("C19") // the terminal went away: what reached it is not judged
+		return
+	}
 	printing := c.Interactive && !c.Verbose
 	total := hr.Snap.Succ + hr.Snap.Fail + hr.Snap.Drop
 	// final summary is rendered from the result as it is when Do returns; counts are final if nothing is still running
